@@ -7,7 +7,8 @@ open Lean Usid.J
 
 def handlers : List (String × (Json → R Json)) := [
   ("proc.ranks", hProcRanks),
-  ("proc.socket", hSocket)
+  ("proc.socket", hSocket),
+  ("proc.run", hProcRun)
 ]
 
 def respond (tbl : List (String × (Json → R Json))) (line : String) : String :=
